@@ -13,9 +13,9 @@ import (
 	"encoding/hex"
 	"encoding/json"
 	"errors"
-	"math"
 	"fmt"
 	"io"
+	"math"
 	"os"
 	"runtime"
 	"sort"
